@@ -160,6 +160,7 @@ fn scan_case(w: &mut W, sc: Sc, data: &[u8], place: Place) -> bool {
         Place::End => 1,
         Place::Start => 2,
         Place::Mid(_) => 4,
+        Place::Cross(_) => 8,
     };
     w.st.count(&format!("calls:{}", sc.name()), 1);
     let eb = expected_bit(sc);
@@ -309,7 +310,13 @@ fn run_c12(w: &mut W) {
                             let mut b = base.clone();
                             b[q] = v;
                             w.st.distinct_case(hash_bytes(sc.idx() as u64, &b));
-                            scan_case(w, sc, &b, if idx / n % 3 == 0 { Place::Start } else { Place::End });
+                            let place = match idx / n % 4 {
+                                0 => Place::Start,
+                                // a page boundary 0..32 bytes in front of the special byte
+                                1 => Place::Cross((q.saturating_sub((idx % 33) as usize)).max(1) as u16),
+                                _ => Place::End,
+                            };
+                            scan_case(w, sc, &b, place);
                         }
                     }
                 }
@@ -539,7 +546,15 @@ fn run_c13(w: &mut W) {
         if !b.is_empty() {
             w.st.distinct_case(hash_bytes(13, &b));
         }
-        let places = [Place::Mid(0), Place::Mid(1), Place::Mid(((rot >> 24) % 32) as u8), Place::End];
+        // 4 alignments / placements, plus page-crossing placements (a page boundary inside the buffer)
+        let mut places = vec![Place::Mid(0), Place::Mid(1), Place::Mid(((rot >> 24) % 32) as u8), Place::End];
+        if b.len() >= 2 {
+            places.push(Place::Cross(1 + ((rot >> 32) % (b.len() as u64 - 1)) as u16));
+            if b.len() >= 48 {
+                places.push(Place::Cross(1 + ((rot >> 40) % (b.len() as u64 - 1)) as u16));
+                places.push(Place::Cross(1 + ((rot >> 48) % (b.len() as u64 - 1)) as u16));
+            }
+        }
         let mut first: Option<Res> = None;
         for pl in places {
             let (o, _) = w.obs(call, &b, pl);
